@@ -13,7 +13,7 @@ Definition ctl_free (b : bytes) : bool := negb (mem_byte 0 b || mem_byte 13 b ||
    pseudo header, and no NUL / CR / LF once surrounding white space is removed *)
 Definition header_ok (h : hval * hval) : bool :=
   match fst h, snd h with
-  | HB (c :: r), HB v => negb (c =? 58) && ctl_free (strip (c :: r)) && ctl_free (strip v)
+  | HB (c :: r), HB v => negb (c =? 58) && negb (starts_colon (strip (c :: r))) && ctl_free (strip (c :: r)) && ctl_free (strip v)
   | _, _ => false
   end.
 Definition headers_ok (hs : list (hval * hval)) : bool := forallb header_ok hs.
